@@ -349,7 +349,7 @@ func DriveT(lg *sim.Log, seed int64, runs, steps int) {
 		c := TmCfg{Gen: map[string][]GenTok{}, Ext: map[string]int64{"X": 0, "Y": 0, "Z": 0, "W": int64(rng.Intn(3)) * 15}}
 		c.Gen["a1"] = []GenTok{{Asset: "X", Sup: int64(20 + rng.Intn(100)), Gov: true, Rc: rng.PickS(rcs)}, {Asset: "Y", Sup: int64(1 + rng.Intn(50)), Gov: rng.Intn(6) == 0, Rc: rng.PickS(rcs)}}
 		c.Gen["a2"] = []GenTok{{Asset: "Z", Sup: int64(20 + rng.Intn(100)), Gov: true, Rc: rng.PickS(rcs)}}
-		if rng.Intn(3) == 0 { // the same asset configured for two apps: one bank supply, two books
+		if n%3 == 1 { // the same asset configured for two apps: one bank supply, two books
 			c.Gen["a2"] = append(c.Gen["a2"], GenTok{Asset: "Y", Sup: int64(1 + rng.Intn(30)), Gov: false, Rc: rng.PickS(rcs)})
 		}
 		c.Gen["a3"] = []GenTok{}
@@ -365,6 +365,13 @@ func DriveT(lg *sim.Log, seed int64, runs, steps int) {
 		root := cur
 		apps := []string{"a1", "a1", "a2", "a2", "a3", "a9"}
 		assets := []string{"X", "X", "Y", "Y", "Z", "Z", "W", "Q"}
+		for _, app := range tmApps { // prologue: most configured genesis mints happen early (the rest of the run works on live books)
+			for _, t := range c.Gen[app] {
+				if rng.Intn(4) != 0 {
+					cur, st = r.Step(w, cur, root, st, "MsgMint", map[string]interface{}{"app": app, "asset": t.Asset})
+				}
+			}
+		}
 		for i := 0; i < steps; i++ {
 			var a string
 			g := map[string]interface{}{}
